@@ -156,7 +156,7 @@ func (E *Engine) encodeOnce(key string, preset map[string]string, presetTypes []
 	}
 	f.assume(and(invs...))
 	for _, rq := range fc.Requires {
-		c := f.evalContractBool(rq, f.curHeap, nil, nil)
+		c := f.evalContractMode(rq, f.curHeap, nil, nil, "assume")
 		f.assume(c)
 	}
 	for _, st := range fc.Stable {
@@ -214,6 +214,12 @@ func (f *frame) selfBind() map[string]SV {
 }
 
 func (f *frame) evalContractBool(cl *Clause, heap Heap, extra map[string]SV, oldHeap Heap) string {
+	return f.evalContractMode(cl, heap, extra, oldHeap, "global")
+}
+
+// evalContractMode: mode "oblige" returns (=> definitions formula), "assume" returns
+// (and definitions formula), "global" asserts definitions once for the whole query.
+func (f *frame) evalContractMode(cl *Clause, heap Heap, extra map[string]SV, oldHeap Heap, mode string) string {
 	bind := f.selfBind()
 	for k, v := range extra {
 		bind[k] = v
@@ -224,6 +230,12 @@ func (f *frame) evalContractBool(cl *Clause, heap Heap, extra map[string]SV, old
 	ctx := &evalCtx{f: f, pkg: f.fn.Pkg.Pkg, bind: bind, heap: heap, oldHeap: oldHeap, oldBind: f.selfBind(),
 		what: fmt.Sprintf("%s clause of %s (%s:%d)", cl.Kind, cl.Func, cl.File, cl.Line)}
 	ctx.lookup = func(name string) (SV, bool) { return f.resolveName(name) }
+	switch mode {
+	case "oblige":
+		return ctx.evalOblige(cl.Text)
+	case "assume":
+		return ctx.evalAssume(cl.Text)
+	}
 	return ctx.evalBoolText(cl.Text)
 }
 
@@ -486,7 +498,7 @@ func (f *frame) postconditions() {
 			}
 			save := f.curPC
 			f.curPC = r.pc
-			c := f.evalContractBool(en, r.heap, extra, nil)
+			c := f.evalContractMode(en, r.heap, extra, nil, "oblige")
 			f.curPC = save
 			conj = append(conj, implies(r.pc, c))
 			parts = append(parts, oblPart{PC: r.pc, Cond: c})
